@@ -6,7 +6,7 @@ from props.C03 import edge_points
 
 ID = "C02"
 LEVEL = "other"
-MODULES = ["H3Proofs.Props.C02"]
+MODULES = ["H3Proofs.Props.C02", "H3Proofs.Props.C02Hex"]
 THEOREMS = "auto"
 TECHNIQUE = ("Lean 4 theorems for argument validation and the planar rounding logic + bit-exact correspondence of "
              "_hex2dToCoordIJK/_faceIjkToH3; the geometric containment clause is a differential run (not a proof)")
